@@ -43,6 +43,8 @@ pub struct VersionBytes {
     pub verneed: Vec<u8>,
     pub verdef: Vec<u8>,
     pub strtab: Vec<u8>,
+    /// string table of the verdef section when it differs from the verneed one (`None` = shared `strtab`)
+    pub strtab_def: Option<Vec<u8>>,
     pub scattered: bool,
 }
 
@@ -196,8 +198,18 @@ fn layout_section(enc: Enc, rng: &mut Rng, scattered: bool, tops: Vec<Rec>, auxe
 }
 
 pub fn emit(enc: Enc, m: &VersionModel, rng: &mut Rng, scattered: bool) -> VersionBytes {
+    emit_opt(enc, m, rng, scattered, false)
+}
+
+/// `split_strtabs`: the definitions' names live in their own string table (sh_link of the two sections differ).
+pub fn emit_opt(enc: Enc, m: &VersionModel, rng: &mut Rng, scattered: bool, split_strtabs: bool) -> VersionBytes {
     let mut vb = VersionBytes { scattered, ..Default::default() };
     vb.strtab.push(0);
+    let mut def_tab: Vec<u8> = vec![0];
+    if split_strtabs {
+        // different contents at equal offsets, so that reading the wrong table cannot go unnoticed
+        def_tab.extend_from_slice(b"@@defs@@\0");
+    }
     for v in &m.versym {
         enc.put(&mut vb.versym, *v as u64, 2);
     }
@@ -229,12 +241,15 @@ pub fn emit(enc: Enc, m: &VersionModel, rng: &mut Rng, scattered: bool) -> Versi
         );
         let mut l = Vec::new();
         for nm in &d.names {
-            let name = add_str(&mut vb.strtab, nm);
+            let name = if split_strtabs { add_str(&mut def_tab, nm) } else { add_str(&mut vb.strtab, nm) };
             l.push(Rec::zero(St::Verdaux, enc.c64).with("vda_name", name));
         }
         auxes.push(l);
     }
     vb.verdef = layout_section(enc, rng, scattered, tops, auxes, "vd_next", "vd_aux", "vda_next");
+    if split_strtabs {
+        vb.strtab_def = Some(def_tab);
+    }
     vb
 }
 
